@@ -83,3 +83,73 @@ fn probe_keyderive_paths_and_seed_verbatim() {
         assert_eq!(sub.get_one::<String>("seed").map(String::as_str), Some(seed));
     }
 }
+
+/// C16 (anchor 3): a member whose pooled handle was evicted is reopened in append mode -- its next block goes AFTER what was
+/// already extracted (pool of capacity 1, two members written alternately: every write reopens the file)
+#[test]
+fn probe_filewriter_reopens_in_append_mode() {
+    let base = std::env::temp_dir().join(format!("verif-mlar-fw-{}", std::process::id()));
+    let _ = fs::remove_dir_all(&base);
+    fs::create_dir_all(&base).unwrap();
+    let cache = Mutex::new(LruCache::new(NonZeroUsize::new(1).unwrap()));
+    let (pa, pb) = (base.join("a"), base.join("b"));
+    File::create(&pa).unwrap();
+    File::create(&pb).unwrap();
+    let (na, nb) = ("a".to_string(), "b".to_string());
+    let mut wa = FileWriter { path: pa.clone(), cache: &cache, verbose: false, fname: &na };
+    let mut wb = FileWriter { path: pb.clone(), cache: &cache, verbose: false, fname: &nb };
+    let mut ea = Vec::new();
+    let mut eb = Vec::new();
+    for i in 0..20u8 {
+        let da = vec![i; 10 + i as usize];
+        let db = vec![100 + i; 3];
+        wa.write_all(&da).unwrap();
+        wb.write_all(&db).unwrap();
+        ea.extend_from_slice(&da);
+        eb.extend_from_slice(&db);
+    }
+    drop(cache);
+    assert_eq!(fs::read(&pa).unwrap(), ea, "member a: content differs after its handle was evicted and reopened");
+    assert_eq!(fs::read(&pb).unwrap(), eb, "member b: content differs after its handle was evicted and reopened");
+    let _ = fs::remove_dir_all(&base);
+}
+
+/// C19: the key files hold exactly the key pair, also when the output paths already exist with longer content
+#[test]
+fn probe_key_files_are_exactly_the_key_pair() {
+    let base = std::env::temp_dir().join(format!("verif-mlar-keys-{}", std::process::id()));
+    let _ = fs::remove_dir_all(&base);
+    fs::create_dir_all(&base).unwrap();
+    let fresh = base.join("fresh.key");
+    let stale = base.join("stale.key");
+    fs::write(&stale, vec![0x55u8; 500]).unwrap();
+    fs::write(stale.with_extension("pub"), vec![0x66u8; 500]).unwrap();
+    for out in [&fresh, &stale] {
+        let m = app().try_get_matches_from(["mlar", "keygen", out.to_str().unwrap(), "-s", "TESTSEED"]).unwrap();
+        let (_, sub) = m.subcommand().unwrap();
+        keygen(sub).unwrap();
+    }
+    let k1 = fs::read(&fresh).unwrap();
+    assert_eq!(k1.len(), 48, "private key file is not the 48-byte DER");
+    assert_eq!(fs::read(&stale).unwrap(), k1, "keygen over an existing file does not give the same private key file");
+    assert_eq!(fs::read(stale.with_extension("pub")).unwrap(), fs::read(fresh.with_extension("pub")).unwrap(), "keygen over an existing file does not give the same public key file");
+    // derivation
+    let d_fresh = base.join("d_fresh.key");
+    let d_stale = base.join("d_stale.key");
+    fs::write(&d_stale, vec![0x77u8; 300]).unwrap();
+    fs::write(d_stale.with_extension("pub"), vec![0x78u8; 300]).unwrap();
+    for out in [&d_fresh, &d_stale] {
+        let m = app().try_get_matches_from(["mlar", "keyderive", fresh.to_str().unwrap(), out.to_str().unwrap(), "-p", "App X", "-p", "v1.2.3"]).unwrap();
+        let (_, sub) = m.subcommand().unwrap();
+        keyderive(sub).unwrap();
+    }
+    let d1 = fs::read(&d_fresh).unwrap();
+    assert_eq!(d1.len(), 48);
+    assert_eq!(fs::read(&d_stale).unwrap(), d1, "keyderive over an existing file does not give the same private key file");
+    assert_eq!(fs::read(d_stale.with_extension("pub")).unwrap(), fs::read(d_fresh.with_extension("pub")).unwrap());
+    // the public file matches the private file
+    let sk = parse_openssl_25519_privkey(&d1).unwrap();
+    let pk = parse_openssl_25519_pubkey(&fs::read(d_fresh.with_extension("pub")).unwrap()).unwrap();
+    assert_eq!(x25519_dalek::PublicKey::from(&sk).as_bytes(), pk.as_bytes(), "public key file does not match the private key file");
+    let _ = fs::remove_dir_all(&base);
+}
